@@ -357,7 +357,7 @@ impl Prop for C13 {
         "C13"
     }
     fn units(&self, tier: Tier) -> Vec<Unit> {
-        vec![Unit::new("walks", if tier == Tier::Quick { 40_000 } else { 1_500_000 })]
+        vec![Unit::new("walks", if tier == Tier::Quick { 200_000 } else { 3_000_000 })]
     }
     fn run_unit(&self, unit: &Unit, cases: u32, seed: u64, stats: &mut Stats) -> Option<Failure> {
         run_proptest(&unit.name, case_strategy(), cases, seed, 4000, stats, |c| guarded("C13", || run(c)))
